@@ -24,7 +24,7 @@ def Code.pushesTested : Code → Bool
   | .simple _ v _ push | .cmp _ v _ _ push | .unitVariant _ v _ push | .range _ v _ push
   | .regex _ v _ push | .like _ v _ push | .closure _ v _ push | .string _ v _ _ push
   | .mapLen _ v _ push => push.formats v
-  | .enumTuple _ v _ _ body push | .structNamed _ v _ _ _ body push | .slice v _ body push =>
+  | .enumTuple _ v _ _ body push | .structNamed _ v _ _ _ _ body push | .slice v _ body push =>
     push.formats v && body.pushesTested
   | .tuple _ _ body => body.pushesTested
   | .mapGet _ _ _ body _ => body.pushesTested
